@@ -74,7 +74,11 @@ class wind(PseudoNetCDFFile):
         record_size = rf.record_size
         while rf.record_size == record_size:
             lays += 1
-            rf.next()
+            if not rf.next():
+                # end of file inside the first time step (next() does not
+                # move then: this loop would never end)
+                raise ValueError('Incomplete wind file: the first time ' +
+                                 'step is truncated')
         self.__dummy_length = (rf.record_size + 8) // 4
         lays //= 2
         record = rows * cols * 4 + 8
